@@ -33,6 +33,19 @@ CHECKS = {
         "runtime monitoring: reference-model oracle over reader emissions + icontract post-conditions vs independent scanner",
         "3/C02",
     ),
+    "C04": (
+        "exploration",
+        "Runtime monitor on the real parser + correlate(): the complete legal product scope default x early/late x declaration "
+        "attribute x access statement x before/after x entity kind (variable, parameter, type, type+constructor interface, "
+        "subroutine, function, generic/abstract/operator interface, component, binding incl. multi-name binding statements; "
+        "submodule entities) is rendered as distinct entities in generated modules (seeded spellings and statement orders, random "
+        "neighbour files) and `permission` of every entity is compared with an independent implementation of the rule. The cell "
+        "space is enumerated completely on every run (exhaustive: true in the evidence).",
+        "Trusts expected_access() (12 lines) as the Fortran rule; two known findings are suppressed by exact cell predicates "
+        "(late bare PRIVATE; PROTECTED sharing the accessibility field).",
+        "runtime monitoring: reference-model oracle over entity.permission, exhaustive cell enumeration",
+        "3/C04",
+    ),
     "C14": (
         "exploration",
         "Runtime monitor (metamorphic) on the real fixed-to-free converter + reader + parser: each generated program is written "
